@@ -6,28 +6,37 @@ CHECK = {
     "rule": "three enumerations on the real Core, one oracle (an effect = operation-handler invocation of the recording backend, "
             "non-error response, stored canary in the response, or a change of the physical store; every effect needs an "
             "unauthenticated path or a live credential whose doc-derived reference ACL grants the namespace-qualified path, + sudo "
-            "on root-protected paths). (L) lattice: ~100 credential states (absent, garbage, every single-character mutant / "
-            "truncation / extension of a service, batch and namespace token, namespace-suffix manipulations, revoked through 8 "
-            "entry points finalised and not, expired, exhausted, entity disabled / deleted, CIDR mismatch, batch, orphan, root, one "
-            "token per policy and pairs) x ~150 path forms (trailing / doubled slashes, relative segments, case, escapes, control "
-            "bytes, mount boundary, namespace by context / header / prefix) x 7 operations through Core.HandleRequest, and x 8 HTTP "
-            "method forms x 2 token headers through the in-process HTTP handler. (H) explicit-state BFS over histories of 18 "
-            "management operations to depth 3 (quick) / 5 (thorough), replayed on a fresh Core per transition, a 41-request battery "
-            "judged in both directions after every step. (S) stateless DFS over all interleavings (storage-operation granularity "
-            "incl. post-operation points, lock granularity in the fine variants; preemption bound 2 / 3) of a request, a management "
-            "operation and optionally a second request, cold and warm caches, battery judged after the join. non-trivial = distinct "
-            "(credential class, channel, path form, path, operation, outcome) / (reference state, operation, battery outcome) / "
-            "(scenario, outcome)",
+            "on root-protected paths). (L) lattice: ~100 credential states (absent, garbage, every single-character substitution / "
+            "deletion / truncation / extension of a service, batch, namespace-service and namespace-batch token, namespace-suffix "
+            "manipulations, revoked through 8 entry points finalised and not, expired (stored lease aged, drained and not; batch TTL), "
+            "exhausted, entity disabled / deleted, CIDR mismatch, batch, orphan, root, one token per policy and pairs) x ~275 path "
+            "forms (trailing / doubled slashes, relative segments, case, escapes, control bytes, mount boundary and prefix-sharing "
+            "mounts, namespace by context / header / prefix) x 7 operations through Core.HandleRequest, and x 8 HTTP method forms x "
+            "2 token headers through the in-process HTTP handler. (H) explicit-state BFS over histories of 18 management operations "
+            "(policy write / restrict / delete, 3 revocation entry points, entity disable / enable, identity policy, group "
+            "membership, namespace lock / unlock, remount, tune) to depth 3 (quick) / 5 (thorough); the reference state is a pure "
+            "model, every transition is replayed on a fresh Core, a 41-request battery runs after every step and is judged in both "
+            "directions after the last one. (S) stateless DFS over all interleavings (storage-operation granularity incl. "
+            "post-operation points, preemption bound 2 / 3; lock granularity in the fine variants and three-thread variants with "
+            "bound 1 / 2) of a request, a management operation and optionally a second request, cold and warm caches; requests in "
+            "flight judged old-or-new, battery judged exactly after the join. non-trivial = distinct (credential class, channel, "
+            "path form, path, operation, outcome, reference verdict) / (reference state, operation, battery outcome) / (scenario, outcome)",
     "assumptions": [
         "refuse-sound: a refusal is never an alarm, except in H/S where the reference is exact (existing keys on existing mounts) and grants must be honoured",
         "R1: a refused request may write token-store / lease bookkeeping (sys/token/, sys/expire/) when the presented token is use-limited; nothing else",
         "R2: a token of namespace N is live everywhere but its policies are qualified with N's path; -self token paths are served in the token's namespace",
         "R3: create vs update is decided by the real existence check: responses are judged on either capability, handler invocations on the operation executed",
+        "R4/R5: a path with a '.' or '..' segment has no target (refused for every credential); a mount named without its trailing slash targets the mount root, "
+        "special paths are matched on the path as written; no policy of the lattice matches a bare mount path",
         "R6/R7: re-spellings of the same credential are not forgeries: base64url slack bits, a batch token with another routing suffix or the legacy prefix, "
         "a signed service token whose unauthenticated version varint differs (payload and MAC equal)",
         "existence checks are routed before the ACL decision by design and are not operation handlers",
+        "the token store creates a namespace's salt lazily on the first id hashed there (even a forged one): the fixture creates a token in every namespace first",
+        "URL paths served by dedicated HTTP handlers (sys/seal-status, ...) never become logical requests; the listing query is ignored there",
         "remount and namespace deletion are asynchronous: 'the next request' is the next one after completion has been reported",
-        "reference ACL = engine/c03ref (documented semantics) restricted to exact and trailing-* patterns; paths containing a newline are not probed (c03ref's '.' does not match it)",
+        "reference ACL = engine/c03ref (documented semantics) restricted to exact and trailing-* patterns; the default policy is overwritten with a known text; "
+        "paths containing a newline are not probed (c03ref's '.' does not match it)",
+        "part S is shared between shards by whole scenario (not by schedule subtree); part-S battery counters are per execution",
     ],
     "units": [
         {"name": "core", "pkg": "./internal/verifh/core", "run": "^TestVerifC02$", "rewrite": SYNC_RW, "gomaxprocs": 2,
@@ -46,5 +55,5 @@ META = {
             "storage changes observable, and judged against a reference written from the statement and the policy documentation.",
     "note": "Trusted: recording backend, engine/c03ref, scheduler shim, the hard-coded list of unauthenticated / root-protected system paths "
             "that are probed. Not modelled: templated / '+' policies, parameter constraints, control groups, MFA, response wrapping, "
-            "quotas, performance standbys, EGPs; memory-model effects below lock granularity.",
+            "quotas, performance standbys, EGPs; memory-model effects below lock granularity; the physical-storage cache is always on.",
 }
